@@ -108,9 +108,15 @@ def lean_hygiene():
     return bad
 
 
-def props_theorems(pid):
-    """Names of the property theorems stated in lean/PygyroVerif/Props/<pid>.lean."""
-    f = LEAN / 'PygyroVerif' / 'Props' / (pid + '.lean')
+def props_theorems(pid, extra=()):
+    """Names of the property theorems stated in lean/PygyroVerif/Props/<pid>.lean (and in the extra Props files)."""
+    out = []
+    for name in (pid,) + tuple(extra):
+        out += _props_theorems_file(LEAN / 'PygyroVerif' / 'Props' / (name + '.lean'))
+    return out
+
+
+def _props_theorems_file(f):
     if not f.exists():
         return []
     ns, out = [], []
@@ -129,12 +135,13 @@ def props_theorems(pid):
     return out
 
 
-def lean_audit(pid, extra_imports=()):
+def lean_audit(pid, extra_imports=(), extra_props=()):
     """#print axioms for every property theorem; returns {theorem: sorted axioms | None if missing}."""
-    names = props_theorems(pid)
+    names = props_theorems(pid, extra_props)
     if not names:
         return {}, 'no Props file / no theorems'
     src = 'import PygyroVerif.Props.%s\n' % pid + ''.join('import %s\n' % i for i in extra_imports)
+    src += ''.join('import PygyroVerif.Props.%s\n' % e for e in extra_props)
     src += ''.join('#print axioms %s\n' % n for n in names)
     with tempfile.TemporaryDirectory(prefix='pgaudit') as d:
         fn = os.path.join(d, 'Audit_%s.lean' % pid)
@@ -272,12 +279,13 @@ class Check:
         self.count('FAIL ' + signature)
 
     # ---- proof side
-    def proof_side(self, build=True, extra_imports=(), targets=None):
+    def proof_side(self, build=True, extra_imports=(), targets=None, extra_props=()):
         """build this property's theorem module (and what it imports) from the current sources, grep the Lean tree
         for forbidden constructs, and audit the axioms of every property theorem"""
         if build:
             if targets is None:
                 targets = ['PygyroVerif.Props.' + self.pid] if (LEAN / 'PygyroVerif' / 'Props' / (self.pid + '.lean')).exists() else []
+                targets += ['PygyroVerif.Props.' + e for e in extra_props]
             ok, log, dt = lean_build(targets)
             self.notes['lake_build_s'] = round(dt, 2)
             if not ok:
@@ -285,10 +293,10 @@ class Check:
         bad = lean_hygiene()
         if bad:
             self.proof_broken.append({'theorem': 'hygiene', 'log': bad[:20]})
-        names = props_theorems(self.pid)
+        names = props_theorems(self.pid, extra_props)
         self.obligations = len(names)
         if not self.proof_broken:
-            res, out = lean_audit(self.pid, extra_imports)
+            res, out = lean_audit(self.pid, extra_imports, extra_props)
             self.audit = res
             for n in names:
                 ax = res.get(n)
